@@ -1,10 +1,14 @@
 /-
 jpv-spec: reads one case per line, answers with what `Spec` says.
   (ID run PATH DOC)            → (ID ok v…) | (ID err) 
+  (ID canonrun PATH LISTING)   → the same for `Spec.run` on `Canon.canon LISTING` (C07: LISTING gives the entries of
+                                 every map in ANY order; theorems in Props/C07Doc.lean)
+  (ID canon LISTING)           → (ID ok DOC), the canonical listing
 -/
 import JPV.Proto
 import JPV.Spec
 import JPV.Registry
+import JPV.Canon
 open JPV JPV.Sexp
 
 def answer (line : String) : String :=
@@ -16,6 +20,17 @@ def answer (line : String) : String :=
       | some vs => (Sexp.list (id :: .atom "ok" :: vs.map Val.toSexp)).toStr
       | none => (Sexp.list [id, .atom "err"]).toStr
     | _, _ => (Sexp.list [id, .atom "bad-case"]).toStr
+  | some (.list [id, .atom "canonrun", p, d]) =>
+    match Path.ofSexp? p, Val.ofSexp? d with
+    | some p, some d =>
+      match Spec.run Registry.env p (Canon.canon d) with
+      | some vs => (Sexp.list (id :: .atom "ok" :: vs.map Val.toSexp)).toStr
+      | none => (Sexp.list [id, .atom "err"]).toStr
+    | _, _ => (Sexp.list [id, .atom "bad-case"]).toStr
+  | some (.list [id, .atom "canon", d]) =>
+    match Val.ofSexp? d with
+    | some d => (Sexp.list [id, .atom "ok", (Canon.canon d).toSexp]).toStr
+    | none => (Sexp.list [id, .atom "bad-case"]).toStr
   | _ => "(? bad-line)"
 
 partial def loop (h : IO.FS.Stream) (out : IO.FS.Stream) : IO Unit := do
